@@ -27,17 +27,20 @@ DecodeRC(xs, max) ==   \* linear: works on shares
   ELSE LET b == Len(xs) IN
        Add(SumSeq([i \in 1..(b - 1) |-> Mul(Pow(2, i - 1), xs[i])]), Mul(xs[b], LastWeight(max) % P))
 
+\* number of digits of the circuit's bound; a descriptor may carry it directly (field "bits") when the bound itself
+\* does not fit a model integer (deployed parameters such as 2^64 - 1: Aliases_Trace.tla)
+BitsC(c) == IF "bits" \in DOMAIN c THEN c.bits ELSE Bits(c.max)
 InputLen(c) ==
   CASE c.kind = "Count" -> 1
-    [] c.kind = "Sum" -> Bits(c.max)
-    [] c.kind = "SumVec" -> Bits(c.max) * c.len
+    [] c.kind = "Sum" -> BitsC(c)
+    [] c.kind = "SumVec" -> BitsC(c) * c.len
     [] c.kind = "Histogram" -> c.len
     [] c.kind = "Multihot" -> c.len + Bits(c.maxw)
-    [] c.kind = "L1BoundSum" -> Bits(c.max) * (c.len + 1)
+    [] c.kind = "L1BoundSum" -> BitsC(c) * (c.len + 1)
     [] c.kind = "HigherDegree" -> 1
 Calls(c) ==
   CASE c.kind = "Count" -> 1
-    [] c.kind = "Sum" -> Bits(c.max)
+    [] c.kind = "Sum" -> BitsC(c)
     [] c.kind = "HigherDegree" -> 1
     [] OTHER -> CeilDiv(InputLen(c), c.chunk)
 Gadget(c) ==
@@ -46,7 +49,7 @@ Gadget(c) ==
     [] c.kind = "HigherDegree" -> [g |-> "Range3", arity |-> 1, degree |-> 3, calls |-> 1, chunks |-> 0]
     [] OTHER -> [g |-> "ParSum", arity |-> 2 * c.chunk, degree |-> 2, calls |-> Calls(c), chunks |-> c.chunk]
 JointRandLen(c) == IF Chunked(c) THEN Calls(c) ELSE 0
-EvalOutLen(c) == CASE c.kind = "Sum" -> Bits(c.max)
+EvalOutLen(c) == CASE c.kind = "Sum" -> BitsC(c)
                    [] c.kind \in {"Histogram", "Multihot", "L1BoundSum"} -> 2
                    [] OTHER -> 1
 OutputLen(c) ==  \* length of the truncated (aggregatable) vector
